@@ -193,7 +193,8 @@ func rewrite(path, rel string) (int, error) {
 			}
 		case *ast.GoStmt:
 			if fl, ok := s.Call.Fun.(*ast.FuncLit); ok {
-				add(off(fl.Body.Lbrace)+1, 0, " "+site("go", s.Pos())+";")
+				// a panic in a goroutine of the system under test is reported to the kernel instead of killing the worker
+				add(off(fl.Body.Lbrace)+1, 0, " defer simrt.Recover("+strconv.Quote(rel+":"+strconv.Itoa(line(s.Pos())))+"); "+site("go", s.Pos())+";")
 
 				usesSimrt = true
 			}
